@@ -47,6 +47,11 @@ func (rn *runner) fixedCases() {
 	} {
 		rn.parseCase(av)
 	}
+	// a combined group that ends in a value option keeps an attached =VALUE (seeded change S2-C17-2)
+	rn.metaCase("same", []string{"-cVd=json"}, []string{"-c", "-V", "-d=json"})
+	rn.metaCase("same", []string{"-cVd=json"}, []string{"-c", "-V", "-d", "json"})
+	rn.metaCase("same", []string{"-cVd", "json"}, []string{"-c", "-V", "-d", "json"})
+	rn.metaCase("same", []string{"-nro=a=b=c", "x"}, []string{"-n", "-r", "-o", "a=b=c", "x"})
 	m := func(argv []string, fileIdx ...int) {
 		marks := make([]bool, len(argv))
 		for _, i := range fileIdx {
@@ -71,6 +76,19 @@ func (rn *runner) fixedCases() {
 	m([]string{"-Rsc", ".", "miss1"}, 2)
 	m([]string{"--argjson", "x", "{", ".", "a.json"}, 4)
 	m([]string{"--argdecode", "x", "rf.bin", ".", "a.json"}, 4)
+	// error values of every JSON type, failing input first / middle / last, and as the only failure
+	for _, v := range errValues {
+		pr := failOnNumber(v)
+		m([]string{"-c", pr, "n.json", "a.json", "b.json"}, 2, 3, 4)
+		m([]string{"-c", pr, "a.json", "n.json", "b.json"}, 2, 3, 4)
+		m([]string{"-c", pr, "a.json", "b.json", "n.json"}, 2, 3, 4)
+		m([]string{"-c", pr, "n.json", "a.json", "m.json"}, 2, 3, 4)
+		m([]string{"-c", "error(" + v + ")", "a.json"}, 2)
+	}
+	m([]string{"-c", "null|error", "a.json", "n.json"}, 2, 3)
+	m([]string{"-c", "(.missing? // null)|error", "a.json"}, 2)
+	m([]string{"-c", "., (false|error)", "n.json", "a.json"}, 2, 3)
+	m([]string{"-c", failOnNumber(`"s"`), "a.json", "n.json", "b.json", "m.json"}, 2, 3, 4, 5) // string error, then …
 	m([]string{})
 	m([]string{"-v", "(", "miss1"}, 2)
 	m([]string{"-h", "nosuchtopic"})
